@@ -1296,7 +1296,33 @@ def module_project(r, rel_main=False):
             lines.append("start :: fn do\nend")
         files[q] = "\n".join(lines) + "\n"
         abstract[q] = (kind, uses)
-    return files, "/p/main.sy", std, abstract
+    # the project directory spelled in one of four ways: absolute, bare file names (the main file has no
+    # directory: `Path::parent` is the empty path), `./`, a relative directory
+    prefix = r.choice(MAIN_SPELLINGS)
+    files = {respell(q, "/p/", prefix): v for q, v in files.items()}
+    abstract = {respell(q, "/p/", prefix): v for q, v in abstract.items()}
+    return files, prefix + "main.sy", std, abstract
+
+
+MAIN_SPELLINGS = ["/p/", "", "./", "proj/"]
+
+
+def respell(path, old_prefix, new_prefix):
+    assert path.startswith(old_prefix), path
+    return new_prefix + path[len(old_prefix):]
+
+
+def rust_parent(path):
+    """Path::parent of a file path, as text (what tree() uses as the root of `/`-rooted imports)"""
+    if "/" not in path:
+        return ""
+    d = path.rsplit("/", 1)[0]
+    return d if d else "/"
+
+
+def respell_files(files, main, prefix):
+    """a layout whose paths start at "/" moved under another spelling of the project directory"""
+    return {respell(q, "/", prefix): v for q, v in files.items()}, respell(main, "/", prefix)
 
 
 def perm_files(files, r):
